@@ -220,6 +220,46 @@ CLOSE = [")", "]", "}", "|"]
 ALLLEX = sorted(set(LEX.values()) | {"x", "f", "dsp", "0.0", "1.0", "\n", ";", "// c\n", "/* c */"})
 
 
+
+def gen_type_graph(rng):
+    """type alias / type declaration GRAPHS: aliases that refer to each other (chains, cycles, self-cycles, TAILS leading into a
+    cycle, names in any alphabetical order), sum types referring to aliases or to themselves with and without `rec`, at top level
+    or inside a module, followed by a use of one of the names.  Most of these texts have type errors: every entry point must
+    answer with diagnostics."""
+    names = ["A", "B", "C", "D", "M", "T", "Z", "Aa", "Zz"]
+    for i in range(len(names) - 1, 0, -1):
+        j = rng.below(i + 1); names[i], names[j] = names[j], names[i]
+    k = rng.range(1, 5)
+    ns = names[:k]
+    def ref(allow_base=True):
+        c = rng.below(10)
+        if allow_base and c < 2: return rng.choice(["float", "int", "string"])
+        return rng.choice(ns)
+    def body():
+        c = rng.below(10)
+        if c < 5: return ref()
+        if c < 6: return "(%s, %s)" % (ref(), ref())
+        if c < 7: return "[%s]" % ref()
+        if c < 8: return "(%s)->%s" % (ref(), ref())
+        if c < 9: return "{a: %s, b: %s}" % (ref(), ref())
+        return "float"
+    decls = []
+    for n in ns:
+        c = rng.below(8)
+        if c < 6:
+            decls.append("type alias %s = %s" % (n, body()))
+        elif c < 7:
+            decls.append("type %s%s = %sNil | %sCons(%s)" % ("rec " if rng.chance(1, 2) else "", n, n, n, ref()))
+        else:
+            decls.append("type %s = %sOne(%s) | %sTwo((%s, %s))" % (n, n, ref(), n, ref(), ref()))
+    u = rng.choice(ns)
+    use = rng.choice(["let x : %s = 1" % u, "fn f(x:%s){ x }" % u, "fn dsp(x:%s){ x }" % u, "fn dsp()->%s{ 1.0 }" % u,
+                      "let x : %s = 1\nfn dsp(){ x }" % u, "fn g(x:%s, y:%s){ y }\nfn dsp(){ 0.0 }" % (u, rng.choice(ns)), ""])
+    sep = rng.choice(["\n", "\n", " ; ", "\n\n"])
+    if rng.chance(1, 4):
+        return "mod m {\n" + sep.join(("pub " if rng.chance(1, 2) else "") + d for d in decls) + "\n" + use.replace("fn dsp", "pub fn h") + "\n}\nfn dsp(){ 0.0 }"
+    return sep.join(decls) + "\n" + use
+
 def mutate_tokens(rng, toks):
     """token-level mutations: delete / duplicate / swap / insert / replace / unbalance brackets / truncate"""
     t = list(toks)
@@ -890,6 +930,11 @@ def run(ck):
     both("grammar", texts, sample_every=n_gen)
     ck.coverage["random_sequences"] = n_rand + n_gen
 
+    # ---- type alias / type declaration graphs (cycles, tails into cycles, self references, modules) ----
+    rng = ck.rng.fork("type-graphs")
+    n_tg = 1500 if tier == "quick" else 15000
+    both("type-graphs", [gen_type_graph(rng) for _ in range(n_tg)], sample_every=n_tg)
+    ck.coverage["type_graph_texts"] = n_tg
     # ---- repository files, token-level mutations, random Unicode ----
     files = repo_mmm()
     ck.coverage["repo_mmm_files"] = len(files)
